@@ -1,5 +1,108 @@
-import IndicatorVerif.Model.Registry
-/- C18 — theorems under construction -/
+import IndicatorVerif.Props.C18Tac
+/-
+  C18 — scale covariance, hand-proved part (the generated per-indicator theorems are in C18Gen.lean):
+  * the indicators whose formulas contain sign tests (RSI, Stochastic RSI, MFI);
+  * the decision rules of the strategies: every comparison a strategy makes is between two quantities of the same
+    degree, or between a scale-free quantity and a constant, so it is unchanged by a positive factor.
+-/
+noncomputable section
 namespace C18
-theorem placeholder_true : True := trivial
+open PS Spec ArithReal
+
+theorem zero_eq : (zero : ℝ) = 0 := by simp [zero]
+
+/-- positive part is positively homogeneous -/
+theorem pos_part_hom (k : ℝ) (hk : 0 < k) (v : ℝ) :
+    (if Arith.gt (k * v) zero then k * v else zero) = k * (if Arith.gt v zero then v else zero) := by
+  by_cases h : 0 < v
+  · have : 0 < k * v := mul_pos hk h
+    simp [zero_eq, h, this]
+  · have : ¬ 0 < k * v := by
+      intro h'; exact h (by by_contra hv; push Not at hv; nlinarith)
+    simp [zero_eq, h, this]
+
+/-- negative part is positively homogeneous -/
+theorem neg_part_hom (k : ℝ) (hk : 0 < k) (v : ℝ) :
+    (if Arith.lt (k * v) zero then Arith.neg (k * v) else zero) = k * (if Arith.lt v zero then Arith.neg v else zero) := by
+  by_cases h : v < 0
+  · have : k * v < 0 := mul_neg_of_pos_of_neg hk h
+    simp [zero_eq, h, this]
+  · have : ¬ k * v < 0 := by
+      intro h'; exact h (by by_contra hv; push Not at hv; nlinarith)
+    simp [zero_eq, h, this]
+
+/-- **RSI does not depend on the currency unit** -/
+theorem rsi_invariant (N p : Nat) (k : ℝ) (hk : 0 < k) (x : Nat → ℝ) :
+    Scaled 1 (rsi N p (input x)) (rsi N p (input (fun i => k * x i))) := by
+  unfold rsi
+  have hch : Scaled k (input x - prev 1 (input x)) (input (fun i => k * x i) - prev 1 (input (fun i => k * x i))) :=
+    Scaled.sub (Scaled.input k x) (Scaled.prev 1 (Scaled.input k x))
+  have hg := Scaled.rma N p (Scaled.map (fun v => if Arith.gt v zero then v else zero) k (pos_part_hom k hk) hch)
+  have hl := Scaled.rma N p (Scaled.map (fun v => if Arith.lt v zero then Arith.neg v else zero) k (neg_part_hom k hk) hch)
+  exact Scaled.map_one' _ (Scaled.div hg hl) (div_self hk.ne')
+
+/-- **Stochastic RSI does not depend on the currency unit** -/
+theorem stochasticRsi_invariant (N p : Nat) (k : ℝ) (hk : 0 < k) (x : Nat → ℝ) :
+    let r := rsi N p (input x)
+    let r' := rsi N p (input (fun i => k * x i))
+    Scaled 1 ((r - mmin p r) / (mmax p r - mmin p r)) ((r' - mmin p r') / (mmax p r' - mmin p r')) := by
+  intro r r'
+  have h := rsi_invariant N p k hk x
+  have := Scaled.div (Scaled.sub h (Scaled.mmin p zero_le_one h)) (Scaled.sub (Scaled.mmax p zero_le_one h) (Scaled.mmin p zero_le_one h))
+  exact this.cast (by norm_num)
+
+/-- selecting the raw money flow by the sign of its change is homogeneous in (price · volume) -/
+theorem select_hom (c : ℝ) (hc : 0 < c) (d r : ℝ) :
+    (if Arith.gt (c * d) zero then c * r else zero) = c * (if Arith.gt d zero then r else zero) ∧
+    (if Arith.lt (c * d) zero then c * r else zero) = c * (if Arith.lt d zero then r else zero) := by
+  constructor
+  · by_cases h : 0 < d
+    · have : 0 < c * d := mul_pos hc h
+      simp [zero_eq, h, this]
+    · have : ¬ 0 < c * d := by intro h'; exact h (by by_contra hv; push Not at hv; nlinarith)
+      simp [zero_eq, h, this]
+  · by_cases h : d < 0
+    · have : c * d < 0 := mul_neg_of_pos_of_neg hc h
+      simp [zero_eq, h, this]
+    · have : ¬ c * d < 0 := by intro h'; exact h (by by_contra hv; push Not at hv; nlinarith)
+      simp [zero_eq, h, this]
+
+/-- **MFI does not depend on the currency unit nor on the volume unit** -/
+theorem mfi_invariant (p : Nat) (k kv : ℝ) (hk : 0 < k) (hv : 0 < kv) (h l c v : Nat → ℝ) :
+    let mfi := fun (h l c v : Nat → ℝ) =>
+      let raw := typicalPrice (input h) (input l) (input c) * input v
+      let ch := raw - prev 1 raw
+      let pos := msum p (map2 (fun d r => if Arith.gt d zero then r else zero) ch raw)
+      let neg := msum p (map2 (fun d r => if Arith.lt d zero then r else zero) ch raw)
+      map (fun mr => hundred - hundred / (one + mr)) (pos / neg)
+    Scaled 1 (mfi h l c v) (mfi (fun i => k * h i) (fun i => k * l i) (fun i => k * c i) (fun i => kv * v i)) := by
+  intro mfi
+  have hraw : Scaled (k * kv) (typicalPrice (input h) (input l) (input c) * input v)
+      (typicalPrice (input fun i => k * h i) (input fun i => k * l i) (input fun i => k * c i) * input fun i => kv * v i) :=
+    Scaled.mul (Scaled.over _ (Scaled.add (Scaled.add (Scaled.input k h) (Scaled.input k l)) (Scaled.input k c))) (Scaled.input kv v)
+  have hch := Scaled.sub hraw (Scaled.prev 1 hraw)
+  have hc : 0 < k * kv := mul_pos hk hv
+  have hpos := Scaled.msum p (Scaled.map2_hom (fun d r => if Arith.gt d zero then r else zero) (fun a b => (select_hom (k * kv) hc a b).1) hch hraw)
+  have hneg := Scaled.msum p (Scaled.map2_hom (fun d r => if Arith.lt d zero then r else zero) (fun a b => (select_hom (k * kv) hc a b).2) hch hraw)
+  exact Scaled.map_one' _ (Scaled.div hpos hneg) (div_self hc.ne')
+
+/-! ### decisions -/
+
+/-- a comparison between two quantities of the same degree is unchanged by a positive factor -/
+theorem gt_scale (k : ℝ) (hk : 0 < k) (a b : ℝ) : Arith.gt (k * a) (k * b) = Arith.gt a b := by
+  have : k * b < k * a ↔ b < a := by constructor <;> intro h <;> nlinarith
+  simp only [Arith.gt, Arith.lt, this]
+theorem lt_scale (k : ℝ) (hk : 0 < k) (a b : ℝ) : Arith.lt (k * a) (k * b) = Arith.lt a b := by
+  have : k * a < k * b ↔ a < b := by constructor <;> intro h <;> nlinarith
+  simp only [Arith.lt, this]
+/-- the sign of a quantity of any degree is unchanged -/
+theorem sign_scale (k : ℝ) (hk : 0 < k) (a : ℝ) : Arith.gt (k * a) 0 = Arith.gt a 0 ∧ Arith.lt (k * a) 0 = Arith.lt a 0 := by
+  have := gt_scale k hk a 0; have := lt_scale k hk a 0
+  simp_all
+
+/-- the Stop-Loss test `closing ≤ purchase · (1 − pct)` is between two prices: unchanged by the currency unit -/
+theorem stop_loss_test_scale (k : ℝ) (hk : 0 < k) (closing purchase pct : ℝ) :
+    (k * closing ≤ (k * purchase) * (1 - pct)) ↔ (closing ≤ purchase * (1 - pct)) := by
+  constructor <;> intro h <;> nlinarith
+
 end C18
